@@ -171,9 +171,10 @@ class World(S.WorldComponent):
     prop = "C01"
     theorems = ["sendAll_wire", "markReceived_once", "pop_sound", "C01_receiver_total", "C01_ordered", "C01_unordered",
                 "C01_no_crosstalk", "ppid_roundtrip"]
-    mix = [("reliable", False, 3), ("reliable", True, 2), ("reliable-heavy-loss", False, 2), ("clean", False, 1),
-           ("mixed-pr", False, 1)]
-    quick = (24, 260)
+    mix = [("reliable", False, 2), ("reliable", True, 1), ("reorder-frag", True, 2), ("reorder-frag", False, 1),
+           ("reliable-heavy-loss", False, 2), ("clean", False, 1), ("mixed-pr", False, 1), ("lifecycle", False, 1),
+           ("reuse", False, 3), ("reuse", True, 1)]
+    quick = (45, 240)
     thorough = (360, 500)
     oracles = [S.oracle_no_crash, S.oracle_c01, oracle_c01_instants]
 
